@@ -703,8 +703,15 @@ SoPlexBase<R>::Settings::RationalParam SoPlexBase<R>::Settings::rationalParam;
 ///@todo improve performance by implementing a separate copy constructor
 template <class R>
 SoPlexBase<R>::SoPlexBase(const SoPlexBase<R>& rhs)
+   : _scalerUniequi(false)
+   , _scalerBiequi(true)
+   , _scalerGeo1(false, 1)
+   , _scalerGeo8(false, 8)
+   , _scalerGeoequi(true)
+   , _scalerLeastsq()
 {
-   // allocate memory as in default constructor
+   // the scalers are configured as in the default constructor (their settings are constant members that the assignment
+   // operator cannot copy); allocate memory as in default constructor
    _statistics = nullptr;
    spx_alloc(_statistics);
    _statistics = new(_statistics) Statistics();
